@@ -72,6 +72,12 @@ func init() {
 					Param{Name: "http-n4", Bound: 2, V: map[string]int{"n": 4, "ws": 0, "phases": 1}},
 				)
 			}
+			// many callers on the library's default HTTP client, whose handlers all wait for each
+			// other (none finishes before every call has reached the server): "any number of calls"
+			for _, n := range []int{33, 101, 130} {
+				ps = append(ps, Param{Name: fmt.Sprintf("http-dflt-n%d-rdv", n), Bound: 0, V: map[string]int{"n": n, "ws": 0, "phases": 1, "dflt": 1, "rdv": 1}})
+			}
+			ps = append(ps, Param{Name: "ws-n130-rdv", Bound: 0, V: map[string]int{"n": 130, "ws": 1, "phases": 1, "rdv": 1}})
 			return ps
 		},
 		Body: concBody,
@@ -88,6 +94,8 @@ func concBody(s *vsched.Sched, p Param) {
 	var err error
 	if p.I("ws") == 1 {
 		_, err = w.WS("T", &cli, jsonrpc.WithPingInterval(0), jsonrpc.WithNoReconnect())
+	} else if p.I("dflt") == 1 {
+		_, err = w.DefaultHTTPClient("T", &cli)
 	} else {
 		_, err = w.HTTPClient("T", &cli)
 	}
@@ -97,6 +105,18 @@ func concBody(s *vsched.Sched, p Param) {
 	}
 	obs := NewObs()
 	s.Teardown = w.Teardown
+	if p.I("rdv") == 1 {
+		s.EnvEnabled = func(name string) bool {
+			if strings.HasPrefix(name, "complete-") {
+				for i := 0; i < n; i++ {
+					if srv.Count(100+i) == 0 {
+						return false
+					}
+				}
+			}
+			return true
+		}
+	}
 	s.Finish = func() {
 		for i := 0; i < n; i++ {
 			for ph := 0; ph < phases; ph++ {
